@@ -24,12 +24,13 @@ import (
 //	10 streams whose /Length is an indirect reference to the integer object
 //	    that follows the stream (bodies end in LF, in CR, contain a
 //	    line-initial "endstream", or are empty),
-//	4 integer objects of 17..19 bytes,
+//	4 integer objects of 17..19 bytes and one small object of every other
+//	type (null, boolean, real, name, string, array, dictionary, reference),
 //
 // written by ref/pdffile's serialiser, for every p in 0..padMax, and every
 // truncation offset from the end of the pad to the end of the file is scanned
 // (offsets inside the pad leave only the pad cut, which the small p cover).
-// The run of 24 objects is about 1 KiB, so with p up to padMax the
+// The run of 32 objects is about 1.1 KiB, so with p up to padMax the
 // run crosses the first and second refill of a 1 KiB buffer at every offset.
 type AlignedCase struct {
 	Pad int `json:"pad"`
@@ -48,6 +49,13 @@ const (
 	alignedStreams = 10
 	alignedInts    = 4
 )
+
+func alignedTyped() []pdfsyn.Value {
+	return []pdfsyn.Value{
+		pdfsyn.NullV(), pdfsyn.BoolV(true), pdfsyn.RealV(1.5), pdfsyn.NameV("N"), pdfsyn.StrV("s"),
+		pdfsyn.ArrV(pdfsyn.IntV(1)), pdfsyn.DictV("K", pdfsyn.IntV(1)), pdfsyn.RefV(1, 0),
+	}
+}
 
 func alignedDoc(p int) ([]byte, error) {
 	rev := pdffile.Revision{Kind: "table", Trailer: []pdfsyn.Entry{{Key: []byte("Root"), Val: pdfsyn.RefV(1, 0)}}}
@@ -68,6 +76,11 @@ func alignedDoc(p int) ([]byte, error) {
 	}
 	for i := 0; i < alignedInts; i++ {
 		rev.Objs = append(rev.Objs, pdffile.ObjDef{Num: num, Val: pdfsyn.IntV(int64(7 * i * i * i))})
+		num++
+	}
+	// one small object of every other type
+	for _, v := range alignedTyped() {
+		rev.Objs = append(rev.Objs, pdffile.ObjDef{Num: num, Val: v})
 		num++
 	}
 	data := pdffile.Write([]pdffile.Revision{rev}, pdffile.Knobs{})
@@ -97,8 +110,8 @@ func runAligned(r *ev.Run, p int, only *AlignedCase) {
 	if err == nil {
 		d, err = prepareBytes(data)
 	}
-	if err == nil && len(d.objs) != 3+2*alignedStreams+alignedInts {
-		err = fmt.Errorf("%d objects found, %d written", len(d.objs), 3+2*alignedStreams+alignedInts)
+	if err == nil && len(d.objs) != 3+2*alignedStreams+alignedInts+len(alignedTyped()) {
+		err = fmt.Errorf("%d objects found, %d written", len(d.objs), 3+2*alignedStreams+alignedInts+len(alignedTyped()))
 	}
 	if err != nil {
 		r.Infra(fmt.Sprintf("aligned document pad=%d: independent reader: %v", p, err))
